@@ -92,6 +92,23 @@ func addGenerators(r *rand.Rand, t *Tree) []GenSpec {
 				secs = append(secs, e)
 			}
 			specs = append(specs, g)
+			if exists[key] == li && g.Behavior != "merge" && g.Behavior != "replace" {
+				// first definition: a referable object; workloads of the same layer (same directive chain) may refer to it
+				gr := &GenRes{ID: g.Tracer, Kind: kind, Name: name, NS: "", Layer: li, Gen: true}
+				t.Res = append(t.Res, gr)
+				if t.Feat.Refs {
+					for _, w := range t.Res {
+						if w.Gen || w.Layer != li || w.NS != "" {
+							continue
+						}
+						for _, k := range workloadKinds {
+							if w.Kind == k && r.Intn(2) == 0 {
+								t.addPodRef(r, w, gr)
+							}
+						}
+					}
+				}
+			}
 			_ = fmt.Sprint
 		}
 		if len(cms) > 0 {
